@@ -24,6 +24,10 @@ BOX_REC = re.compile(r"^babylon::DepositBox<.*>$")
 HEAD_ATOMIC = re.compile(r"^std::atomic<babylon::VersionedValue<.*>>$")
 
 
+DEPENDS = {
+    "C04": "id links and deposit slots live in a ConcurrentVector",
+}
+
 def units(tier):
     return [driver("id_allocator.cc")]
 
